@@ -1,6 +1,6 @@
 CONSTANTS
   Rotations = {0, 9, 18}
-  Width = 3
+  Widths = {3}
   TransportSets = {{"grpc"}, {"rest"}, {"grpc", "rest"}}
   Namings = {"plain"}
   NSvcs = {1}
